@@ -117,7 +117,8 @@ def st_decos(draw, ids, kind, n_pre=(0, 3), n_post=(0, 2), n_snap=(0, 2), n_wrap
     return list(reversed(app))
 
 
-RET_POOL = ["obj", "None", "0", "''", "False", "list", "emptylist", "arg"]
+# singletons that mean something to the interpreter elsewhere (NotImplemented, Ellipsis) are results like any other
+RET_POOL = ["obj", "None", "0", "''", "False", "list", "emptylist", "arg", "NotImplemented", "Ellipsis"]
 EXC_POOL_SYNC = ["Exception", "KeyError", "ProgError", "KeyboardInterrupt", "SystemExit", "GeneratorExit",
                  "ProgBaseError", "StopIteration",
                  # types the library raises or handles itself somewhere: they pass through like any other
